@@ -1195,11 +1195,17 @@ theorem data_runFrame (p : Prog) (hh : Hist) {s0 : St} {f : Frame} {rest : List 
     · exact quiet _ [.flush] (by nb) (by intro h'; cases h') (DQ.of_same ⟨rfl, rfl, rfl⟩) rfl rfl
         (framesQuiet_one (by nb) trivial) h.wq
     · rename_i a _
-      refine quiet _ [.exclActs sys (i + 1)] (by nb) (by intro h'; cases h')
-        (DQ.right (dq_enqueue _ a h.dead hfd) ⟨rfl, rfl, rfl⟩) (by simp [St.push]) (by simp [St.push])
-        (framesQuiet_one (by nb) trivial) ?_
-      simp only [St.push, enqueue_wq]
-      exact plainList_append h.wq (plain_enqueue _ a)
+      split
+      · refine quiet _ [.flush, .exclActs sys (i + 1)] (by nb) (by intro h'; cases h')
+          (DQ.right (dq_enqueue _ a h.dead hfd) ⟨rfl, rfl, rfl⟩) (by simp [St.push]) (by simp [St.push])
+          (framesQuiet_append (a := [Frame.flush]) (b := [Frame.exclActs sys (i + 1)]) (framesQuiet_one (by nb) trivial) (framesQuiet_one (by nb) trivial)) ?_
+        simp only [St.push, enqueue_wq]
+        exact plainList_append h.wq (plain_enqueue _ a)
+      · refine quiet _ [.exclActs sys (i + 1)] (by nb) (by intro h'; cases h')
+          (DQ.right (dq_enqueue _ a h.dead hfd) ⟨rfl, rfl, rfl⟩) (by simp [St.push]) (by simp [St.push])
+          (framesQuiet_one (by nb) trivial) ?_
+        simp only [St.push, enqueue_wq]
+        exact plainList_append h.wq (plain_enqueue _ a)
   | topActs t i =>
     simp only [runFrame, doTopActs]
     split
